@@ -1108,6 +1108,16 @@ def bind_parameter(binding_key,
     raise RuntimeError('Attempted to modify locked Gin config.')
 
   pbk = ParsedBindingKey.parse(binding_key)
+  # Resolving the key may have re-registered a configurable (dynamic
+  # registration, e.g. `m.C.method.x = @m.C`). References inside `value` were
+  # created before that and are not in the config yet, so point them at the
+  # current registration here.
+  for reference in iterate_references(value):
+    stale = reference.configurable
+    if _REGISTRY.get(stale.selector) != stale:  # Superseded registration.
+      current = _inverse_lookup(stale.wrapped)
+      if current is not None:
+        reference.initialize(current)
   fn_dict = _CONFIG.setdefault(pbk.config_key, {})
   fn_dict[pbk.arg_name] = value
 
